@@ -254,6 +254,25 @@ class Inotify:
             if inotify_rm_watch(self._inotify_fd, wd) == -1:
                 Inotify._raise_error()
 
+    def remove_watches_below(self, path: bytes) -> None:
+        """Stops watching the directory at ``path`` and everything below it.
+
+        Used for a directory that has been moved out of the watched tree: its
+        kernel watches follow the inode and would keep reporting changes under
+        the old name.
+
+        :param path:
+            Path of the directory that left the tree.
+        """
+        with self._lock:
+            if self._closed:
+                return
+            prefix = path + os.path.sep.encode()
+            for _path in [p for p in self._wd_for_path if p == path or p.startswith(prefix)]:
+                wd = self._wd_for_path.pop(_path)
+                # The IN_IGNORED that follows drops the descriptor from _path_for_wd.
+                inotify_rm_watch(self._inotify_fd, wd)
+
     def close(self) -> None:
         """Closes the inotify instance and removes all associated watches."""
         with self._lock:
